@@ -450,6 +450,60 @@ def check_sched(case):
 
 
 
+
+# ------------------------------------------------------------------ MAC addresses outside the message proper
+EXC_MAC_CASES = [{'excmac': where, 'mac': i, 'logger': lk} for where in ('exception-text', 'exception-arg', 'stack-info-caller', 'chained-cause')
+                 for i in range(len(MACS)) for lk in ('record', 'phase', 'framework')]
+
+
+def check_exc_mac(case):
+  """A captured message is everything that ends up in LogRecord.message: also the traceback that logger.exception() /
+  exc_info=True appends.  A MAC address in the exception text is redacted there as anywhere else."""
+  r = CaseResult()
+  ohtf.reset_case()
+  from openhtf.util import logs  # pylint: disable=g-import-not-at-top
+  from openhtf.core import test_record  # pylint: disable=g-import-not-at-top
+  logging.getLogger('openhtf').setLevel(logging.DEBUG)
+  mac = MACS[case['mac']]
+  uid = UIDS[0]
+  rec = test_record.TestRecord(dut_id='d', station_id='s')
+  logs.initialize_record_handler(uid, rec, lambda: None)
+  try:
+    root = logs.get_record_logger_for(uid)
+    logger = {'record': root, 'phase': root.getChild('phase.my_phase'), 'framework': logging.getLogger('openhtf.core.vfcheck')}[case['logger']]
+    where = case['excmac']
+    try:
+      try:
+        if where == 'exception-arg':
+          raise KeyError(mac)
+        raise ValueError('device %s unreachable' % mac)
+      except ValueError as e:
+        if where == 'chained-cause':
+          raise RuntimeError('lookup failed') from e
+        raise
+    except Exception:  # pylint: disable=broad-except
+      if where == 'stack-info-caller':
+        logger.error('lookup failed', exc_info=True, stack_info=True)
+      else:
+        logger.exception('lookup failed')
+  finally:
+    logs.remove_record_handler(uid)
+  r.nontrivial = True
+  r.classes = ['exc-mac', 'where:' + case['excmac'], 'logger:' + case['logger']]
+  msgs = [l.message for l in rec.log_records]
+  if len(msgs) != 1:
+    r.bad('C19/exc-mac/not-recorded-once', '%r: %d records' % (case, len(msgs)))
+    return r
+  m = msgs[0]
+  if MAC_RE.search(m):
+    r.bad('C19/mac-not-redacted/in-traceback', '%r: the captured message contains the full address %s: ...%s' % (case, mac, m[-120:]))
+  elif (mac[:9] + '<REDACTED>').lower() not in m.lower():
+    r.bad('C19/exc-mac/vendor-prefix-lost', '%r: ...%s' % (case, m[-120:]))
+  if 'lookup failed' not in m or ('ValueError' not in m and 'KeyError' not in m):
+    r.bad('C19/exc-mac/traceback-lost', '%r: %r' % (case, m[-200:]))
+  return r
+
+
 # ------------------------------------------------------------------ the process-wide CLI options (-v, -vv, --quiet)
 VERBOSITY_CASES = [{'verbosity': v, 'quiet': q_} for v in (0, 1, 2, 3) for q_ in (False, True)]
 
@@ -488,6 +542,7 @@ def plan(tier, seed):
     for sh in range(nsh):
       jobs.append({'kind': 'sched', 'name': 'sched.%d.%d.%d' % (n, k, sh), 'slots': n, 'msgs': k, 'bound': bound, 'shard': sh, 'nshards': nsh})
   jobs.append({'kind': 'verbosity', 'name': 'verbosity'})
+  jobs.append({'kind': 'excmac', 'name': 'excmac'})
   for i in range(8):
     jobs.append({'kind': 'hist', 'name': 'hist%d' % i, 'hseed': seed * 1000 + i, 'n': 500 if q else 12000})
   for i in range(8):
@@ -500,6 +555,13 @@ def run_job(job, acct):
   if job['kind'] == '_regress':
     from vf import runner  # pylint: disable=g-import-not-at-top
     runner.run_regress(sys.modules[__name__], job, acct)
+  elif job['kind'] == 'excmac':
+    for case in EXC_MAC_CASES:
+      r = check_exc_mac(case)
+      acct.case(case, r.nontrivial, r.classes)
+      for sig, detail in r.violations:
+        (acct.known if sig in known else acct.violation)(sig, case, detail)
+    acct.exhaustive_parts.append('MAC address in the text / argument / cause of an exception logged with its traceback: 4 places x 4 addresses x 3 loggers')
   elif job['kind'] == 'verbosity':
     for case in VERBOSITY_CASES:
       r = check_verbosity(case)
@@ -534,6 +596,8 @@ def run_job(job, acct):
 
 
 def replay(case):
+  if 'excmac' in case:
+    return check_exc_mac(case).violations
   if 'verbosity' in case:
     return check_verbosity(case).violations
   if 'slots' in case:
